@@ -22,8 +22,10 @@ def run_cases(cases, res, stratum):
         ux = c['cx'] & mask
         try:
             x = A.mk(fx, np, s, n, nf, c['cx'], **({'array_output_type': 'array'} if c.get('aot') else {}))     # (how NumPy FUNCTION results are returned is a setting of x: the operators return fixed-point objects in both settings)
+            if c.get('elem'): x = A.mk(fx, np, s, n, nf, [0, c['cx']], shape=(2,), **({'array_output_type': 'array'} if c.get('aot') else {}))[1]     # (an element taken out of an array)
             if c['y'] is not None:
                 sy, ny, nfy = c['y']; y = A.mk(fx, np, sy, ny, nfy, c['cy'])
+                if c.get('elem') == 2: y = A.mk(fx, np, sy, ny, nfy, [c['cy'], 0], shape=(2,))[0]
             else: y = c['cy']
             uy = c['cy'] & mask
             if c['y'] is not None and c['y'][1] != n:
@@ -199,20 +201,20 @@ def shard(shard, nshards, rng, tier, extra):
                 lo, hi = S.fmt_bounds(s, n); ly, hy = S.fmt_bounds(sy, n)
                 for cx in range(lo, hi + 1):
                     for cy in range(ly, hy + 1):
-                        cases.append({'x': [s, n, rng.randint(0, n)], 'cx': cx, 'y': [sy, n, rng.randint(0, n)], 'cy': cy})
+                        cases.append({'x': [s, n, rng.randint(0, n)], 'cx': cx, 'y': [sy, n, rng.randint(0, n)], 'cy': cy, 'elem': (cx + cy) % 3})
                     cases.append({'x': [s, n, rng.randint(0, n)], 'cx': cx, 'y': None, 'cy': rng.randint(-(1 << n), (1 << (n + 1))), 'side': rng.choice(['left', 'right']), 'mask_carrier': rng.choice(['py', 'np']), 'aot': rng.random() < 0.4})
     run_cases(cases, res, 'A:all-code-pairs-small')
     cases = []
-    for _ in range((2500 if tier == 'quick' else 60000) // nshards):
+    for _ in range((7500 if tier == 'quick' else 60000) // nshards):
         n = rng.choice(WIDE); s = rng.random() < 0.5; lo, hi = S.fmt_bounds(s, n)
         cx = rng.choice([lo, hi, 0, lo + 1, hi - 1, rng.randint(lo, hi), rng.randint(lo, hi)])
         y, cy = gen_y(rng, n)
         if y is not None:
             ly, hy = S.fmt_bounds(y[0], n); cy = rng.choice([ly, hy, 0, rng.randint(ly, hy)])
-        cases.append({'x': [s, n, rng.choice([0, 1, n // 2, n])], 'cx': cx, 'y': y, 'cy': cy, 'side': rng.choice(['left', 'right']), 'mask_carrier': rng.choice(['py', 'np']), 'aot': rng.random() < 0.3})
+        cases.append({'x': [s, n, rng.choice([0, 1, n // 2, n])], 'cx': cx, 'y': y, 'cy': cy, 'side': rng.choice(['left', 'right']), 'mask_carrier': rng.choice(['py', 'np']), 'aot': rng.random() < 0.3, 'elem': rng.choice([0, 0, 1, 2])})
     run_cases(cases, res, 'B:wide-words')
     cases = []
-    for _ in range((600 if tier == 'quick' else 15000) // nshards):
+    for _ in range((1800 if tier == 'quick' else 15000) // nshards):
         n = rng.choice(WIDE + [2, 4, 8]); s = rng.random() < 0.5; lo, hi = S.fmt_bounds(s, n)
         cxs = [rng.choice([lo, hi, 0, lo + 1, hi - 1, -1 if s else 1, rng.randint(lo, hi), rng.randint(lo, hi)]) for _k in range(rng.randint(1, 4))]
         y, cy = gen_y(rng, n)
@@ -229,9 +231,9 @@ def shard(shard, nshards, rng, tier, extra):
                 cases[-1]['cxs'] = [rng.choice([lo, hi, 0, -1 if s else 1, rng.randint(lo, hi), rng.randint(lo, hi)]) for _k in range(k)]
                 cases[-1]['cys'] = [rng.choice([ly, hy, 0, rng.randint(ly, hy), rng.randint(ly, hy)]) for _k in range(k)]
     run_array_cases(cases, res, 'R:arrays-of-codes')
-    run_bcast_cases(bcast_cases(rng, (300 if tier == 'quick' else 8000) // nshards), res, 'S:broadcast-shapes')
+    run_bcast_cases(bcast_cases(rng, (900 if tier == 'quick' else 8000) // nshards), res, 'S:broadcast-shapes')
     cases = []
-    for _ in range((300 if tier == 'quick' else 5000) // nshards):
+    for _ in range((900 if tier == 'quick' else 5000) // nshards):
         n = rng.choice([3, 8, 16, 32, 64, 65]); ny = n + rng.choice([-1, 1, 8, -2])
         if ny < 1: ny = n + 1
         cases.append({'x': [rng.random() < 0.5, n, 0], 'cx': 1, 'y': [rng.random() < 0.5, ny, 0], 'cy': 1})
